@@ -93,11 +93,15 @@ class Check(BaseCheck):
             "least one vertex per component x right-hand sides (scalar, vector, column, zero) x optional Neumann data x lump; the matrix and "
             "right-hand side handed to SuperLU are captured and compared with the model's reduced system; malformed argument stream for the "
             "ValueError branches; distinct by hash of the whole problem")
-    trusted = ["SuperLU (scipy.sparse.linalg.splu): exact solve of the nonsingular reduced system — assumed by the theorems, monitored (residual)"]
+    trusted = ["SuperLU (scipy.sparse.linalg.splu): exact solve of the nonsingular reduced system — assumed by the theorems, monitored (residual)",
+               "the glue of Solver.poisson (right-hand side, elimination, re-insertion, CSC format, no-Dirichlet branch) is re-traced from the source on "
+               "symbolic 4x4 matrices on every run and bridged to Poisson.system / Poisson.fill by proof (Bridge/Poisson.lean); the argument checks, "
+               "scalar / column h and all other sizes are tied by the differential comparison of the captured system"]
     assumptions = ["solve contract: a·(solve a b) = b"]
 
     def translate(self):
         extract.gen_fem()
+        extract.gen_poisson()
 
     def problems(self, seed, n_tri, n_tet):
         rng = gen.rng_for(seed, "c05")
